@@ -103,3 +103,30 @@ def weighted_sum(system, grid, calculators, K_list, symmetrize, parameters_K=Non
 
 def result_data(res, key):
     return np.asarray(res.results[key].data)
+
+
+def raw_twins(calcs):
+    """for static calculators that post-process their integral (antisymmetrisation etc. in an overridden __call__),
+    a twin that integrates the same Formula with the same factor but without the post-processing: its magnitude is
+    the natural scale of the quantity (the post-processed value may vanish identically and then consists of rounding
+    noise only, which must not be judged relative to itself)"""
+    from wannierberri.calculators.static import StaticCalculator
+    out = {}
+    for key, c in calcs.items():
+        if isinstance(c, StaticCalculator) and type(c).__call__ is not StaticCalculator.__call__:
+            out["_raw_" + key] = StaticCalculator(Efermi=c.Efermi, Formula=c.Formula, fder=c.fder, tetra=c.tetra, kwargs_formula=c.kwargs_formula,
+                                                  constant_factor=c.constant_factor, use_factor=c.use_factor, degen_thresh=c.degen_thresh,
+                                                  degen_Kramers=c.degen_Kramers, save_mode="none")
+    return out
+
+
+def natural_scale(results, key):
+    """max |value| of `key` over a list of ResultDicts, and of its raw twin if present"""
+    sc = 0.0
+    for r in results:
+        sc = max(sc, float(np.abs(r.results[key].data).max()))
+        if "_raw_" + key in r.results:
+            tw = r.results["_raw_" + key].data
+            vol = 1.0
+            sc = max(sc, float(np.abs(tw).max()) * vol)
+    return sc
